@@ -13,7 +13,8 @@ VARIABLES tid, l, verdict
 
 Check(e) ==
   IF e.ev = "Pair" THEN
-     (IF e.extoutcome # e.inoutcome THEN "external_exit_code_differs_from_in_process"
+     (IF e.inhang \/ e.hang THEN "run_hangs"
+      ELSE IF e.extoutcome # e.inoutcome THEN "external_exit_code_differs_from_in_process"
       ELSE IF e.sigExt # e.sigIn THEN "external_evaluations_differ_from_in_process"
       ELSE IF e.childalive THEN "optimizer_process_left_running" ELSE "ok")
   ELSE IF e.hang THEN "run_hangs"
